@@ -1,3 +1,96 @@
-From ST Require Import Base.Outcome Fmt.Parser Fmt.Render Fmt.Sinks Fmt.RenderSpec.
-Theorem placeholder : True. Proof. exact I. Qed.
-Print Assumptions placeholder.
+(* Properties/C11.v — formatted output equals the specified rendering.
+   Statements only; proofs in Fmt/DigitsFacts.v Utf8Sweep.v RenderProofs.v FieldProofs.v.
+   `returns w t tt` : the computation made exactly the writer calls t and returned;
+   `bytes_of t` : the bytes those calls denote (the same for every narrow writer, C17).      *)
+From Coq Require Import NArith ZArith List.
+From ST Require Import Base.Outcome Num.Digits Fmt.Strtol Fmt.Parser Fmt.ParserProofs Fmt.DigitsFacts
+  Fmt.Render Fmt.DriverProofs Fmt.Sinks Fmt.SinksProofs Fmt.RenderSpec Fmt.Utf8Sweep Fmt.RenderProofs Fmt.FieldProofs.
+Import ListNotations.
+Local Open Scope N_scope.
+
+(* FULL STATEMENT (render_model = render_spec for the whole format string):
+     forall fmt args b, Forall arg_range args -> spec_format (Some fmt) args = VBytes b ->
+       exists t, returns (driver (Some fmt) args) t tt /\ bytes_of t = b
+   Proved below: the part that carries the arithmetic — EVERY FIELD, i.e. for every format_spec
+   whose three numbers are ints (all combinations of alignment, pad, zero flag, '#', '+', radix
+   / character class, width, precision) and every value of every argument type, the writer
+   calls of the transcribed format_type overload spell exactly RenderSpec.render_field (or the
+   documented assertion where the spec says so).  Missing: that the transcribed scanner
+   (fetch_prefix / parse_format, index based) cuts the string into the same literals and
+   fields as RenderSpec.scan and that apply_format assigns the same arguments as
+   RenderSpec.assign; that part is tied by the correspondence run only (model = spec = code on
+   every generated format string). *)
+Theorem render_model_eq_spec_partial : forall sp x, spec_ints sp -> arg_range x ->
+  field_matches (format_type sp x) (render_field sp x).
+Proof. exact field_render. Qed.
+Print Assumptions render_model_eq_spec_partial.
+
+(* the integers on their own: signed types (unsigned negation for the magnitude) ... *)
+Theorem render_signed : forall bits sp v,
+  is_char_class sp = false -> int_range (minimum_length sp) -> (bits <= 64)%nat ->
+  (- 2 ^ Z.of_nat bits < v < 2 ^ Z.of_nat bits)%Z ->
+  exists t, returns (format_numeric_s bits sp v) t tt /\ bytes_of t = render_int sp v.
+Proof. exact numeric_s_render. Qed.
+Print Assumptions render_signed.
+
+(* ... and unsigned types *)
+Theorem render_unsigned : forall bits sp v,
+  is_char_class sp = false -> int_range (minimum_length sp) -> (bits <= 64)%nat ->
+  v < 2 ^ N.of_nat bits ->
+  exists t, returns (format_numeric_u bits sp v) t tt /\ bytes_of t = render_int sp (Z.of_N v).
+Proof. exact numeric_u_render. Qed.
+Print Assumptions render_unsigned.
+
+(* digits_canonical: uint_formatter writes the representation without leading zeros of Num/Digits.v *)
+Theorem digits_canonical : forall bits value radix upper,
+  2 <= radix -> value < 2 ^ N.of_nat bits ->
+  uint_format bits value radix upper = Ok (digits_text value radix upper).
+Proof. exact uint_format_digits. Qed.
+Print Assumptions digits_canonical.
+
+(* buffer_fits: the backwards writer stays inside its `digits` cells and its fuel *)
+Theorem buffer_fits : forall bits value radix upper,
+  2 <= radix -> value < 2 ^ N.of_nat bits ->
+  exists txt, uint_format bits value radix upper = Ok txt /\ (1 <= length txt <= Nat.max 1 bits)%nat.
+Proof. exact uint_format_fits. Qed.
+Print Assumptions buffer_fits.
+
+(* never_truncates: length = max(width, natural length); the natural text is all there *)
+Theorem never_truncates : forall sp v,
+  Z.of_nat (length (render_int sp v)) =
+  Z.max (minimum_length sp)
+        (Z.of_nat (length (head_of sp v) +
+                   length (digits_text (Z.abs_N v) (radix_spec (dclass sp)) (upper_spec (dclass sp))))).
+Proof. exact render_int_length. Qed.
+Print Assumptions never_truncates.
+
+Theorem never_truncates_content : forall sp v, exists p1 p2 p3,
+  render_int sp v = p1 ++ head_of sp v ++ p2
+                    ++ digits_text (Z.abs_N v) (radix_spec (dclass sp)) (upper_spec (dclass sp)) ++ p3
+  /\ Forall (fun c => c = spec_pad_char sp) (p1 ++ p2 ++ p3).
+Proof. exact render_int_contains. Qed.
+Print Assumptions never_truncates_content.
+
+(* text: precision cut, then width, on the side the alignment says *)
+Theorem render_text_equal : forall sp (text : list N),
+  int_range (minimum_length sp) -> int_range (precision sp) -> (Z.of_nat (length text) < 2147483648)%Z ->
+  exists t, returns (format_string sp text AlignLeft) t tt /\ bytes_of t = render_text sp text.
+Proof. exact string_render. Qed.
+Print Assumptions render_text_equal.
+
+(* the character class: UTF-8 of the code point, U+FFFD outside 0..10FFFF (every 64-bit value) *)
+Theorem render_char_equal : forall sp v, (-9223372036854775808 <= v < 18446744073709551616)%Z ->
+  if padded sp then format_char sp (to_ull v) = ([], Abort AbCharPad)
+  else returns (format_char sp (to_ull v)) [EApp (render_char v)] tt.
+Proof. exact char_render. Qed.
+Print Assumptions render_char_equal.
+
+(* the shift/mask encoder equals the Unicode table on all 0x110000 code points (one sweep) *)
+Theorem utf8_encoder_table : forall c, c <= 0x10FFFF -> write_utf8 c = utf8_enc c.
+Proof. exact write_utf8_enc. Qed.
+Print Assumptions utf8_encoder_table.
+
+Example hypotheses_satisfiable :
+  arg_range (AInt true 64 (-9223372036854775808)) /\ arg_range (AInt false 8 255) /\ arg_range (AChar (-23)) /\
+  arg_range (AStr [65; 66]) /\ arg_range (AFloat (fun _ _ _ => [48])) /\ spec_ints default_spec.
+Proof. exact arg_range_example. Qed.
